@@ -39,6 +39,17 @@ theorem C01_gen_mask_test : ∃ t, Generated.C01.maskTable = some t ∧
       ⟨0, ⟨2, 1⟩, BitVec.ofNat 8 row.2.1, BitVec.ofNat 8 row.2.2.1, true⟩ = row.2.2.2 :=
   ⟨_, rfl, by decide⟩
 
+set_option maxRecDepth 8192 in
+/-- the mask test of the **initiating** side (other code: `readStreamFeatures` and the selection
+loop of `negotiateFeatures`), evaluated by the real code on all 512 triples through a one-feature
+initiator whose peer advertises the feature as mandatory: the feature is negotiated iff the model's
+`eligible` holds, and when it is (its own mask supplies `Ready`) the session is established -/
+theorem C01_gen_mask_test_init : ∃ t, Generated.C01.maskTableInit = some t ∧ t.length = 512 ∧
+    ∀ row ∈ t, eligible (BitVec.ofNat 8 row.1)
+      ⟨0, ⟨2, 1⟩, BitVec.ofNat 8 row.2.1, BitVec.ofNat 8 row.2.2.1, true⟩ = row.2.2.2.1
+      ∧ row.2.2.2.2 = row.2.2.2.1 :=
+  ⟨_, rfl, rfl, by decide⟩
+
 /-- … and `eligible` only looks at the bits the two masks name, so the table extends to every
 state: bits outside `necessary ||| prohibited` never matter -/
 theorem C01_eligible_local (st : St) (f : Feature) :
